@@ -598,26 +598,7 @@ func c6Sync(c *Ctx, lv map[string]int64) {
 			}
 		}
 	}
-	bs := c.Method(CorePath, "BufferedWriteSyncer", "Sync")
-	if c.Anchor("R6.4", "zapcore.BufferedWriteSyncer.Sync", bs != nil) {
-		var ws, flush ssa.Instruction
-		for _, cl := range Calls(bs) {
-			if IsCallTo(cl, "(go.uber.org/zap/zapcore.WriteSyncer).Sync") && Desc(Args(cl)[0]) == "s.WS" {
-				ws = cl
-			}
-			if IsCallTo(cl, "(*bufio.Writer).Flush") {
-				flush = cl
-			}
-		}
-		c.Check(ws != nil && mustPass(bs, func(i ssa.Instruction) bool { return i == ws }), "R6.4", bs.String(), "always-syncs-sink", bs.Pos(), "every path of Sync reaches s.WS.Sync() (an early return would leave a Panic/Fatal entry unsynced below this layer)")
-		okF := flush != nil && ws != nil && !ExistsPath(bs, ws, func(i ssa.Instruction) bool { return i == flush }, nil)
-		if okF {
-			// flush skipped only when not initialized
-			_, t, _ := BranchOn(bs, "s.initialized")
-			okF = t != nil && !ExistsPath(bs, AtBlock(t), func(i ssa.Instruction) bool { return i == ws }, func(i ssa.Instruction) bool { return i == flush })
-		}
-		c.Check(okF, "R6.4", bs.String(), "flush-before-sync", bs.Pos(), "when initialised the buffer is flushed before the sink is synced")
-	}
+	c12Rules(c, "", "", "R6.4", "", "")
 }
 
 func c6Actions(c *Ctx) {
